@@ -350,7 +350,7 @@ def run_check(pid, tier, seed):
 
     log(f"[{pid}] tier={tier} seed={seed} evaluations={m['evaluations']} distinct_nontrivial={distinct} counters={json.dumps(m['counters'])} wall={wall:.1f}s")
     for sig, v in sorted(known_hits.items()):
-        print(f"KNOWN-FINDING: property={pid} {known[(pid, sig)]}")
+        print(f"KNOWN-FINDING: {known[(pid, sig)]}")
     if new_violations:
         seen = set()
         n = 0
